@@ -426,6 +426,12 @@ func judgeObservers(st *Step, rep Reporter) {
 	if p.ExErr == "" && p.Exists != has {
 		rep([]string{"C01", "C05"}, "observer.exists", fmt.Sprintf("after %s: Exists=%v but GetRaw %s", st.Op.Variant(), p.Exists, orOK(p.RawErr)))
 	}
+	// Get (the decoding read) must agree with GetRaw
+	if (p.GetErr == "") != has || (has && (!bytes.Equal(p.GetBody, p.Raw) || p.GetCas != p.RawCas)) {
+		rep([]string{"C01", "C05"}, "observer.get", fmt.Sprintf("after %s: Get %s (cas %d, %d bytes) but GetRaw %s (cas %d, %d bytes)", st.Op.Variant(), orOK(p.GetErr), p.GetCas, len(p.GetBody), orOK(p.RawErr), p.RawCas, len(p.Raw)))
+	} else if has && p.GetJSONErr != "" {
+		rep([]string{"C01"}, "observer.get.json", fmt.Sprintf("after %s: Get into a Go value failed for a valid JSON body: %s", st.Op.Variant(), p.GetJSONErr))
+	}
 	if p.GXErr == "" {
 		if (p.GXBody != nil) != has {
 			rep([]string{"C01", "C05"}, "observer.getwithxattrs.body", fmt.Sprintf("after %s: GetWithXattrs body present=%v but GetRaw %s", st.Op.Variant(), p.GXBody != nil, orOK(p.RawErr)))
